@@ -335,6 +335,24 @@ func Monitor(prop string, c Case, sch *Schema, obs []OpObs) []Failure {
 			}
 		}
 	case "C03":
+		// guards: a mutation call at/over the queue limit is Canceled (one
+		// pending Exception excepted) — observed on calls made from handlers
+		limit := 1000
+		for _, l := range c.Lines {
+			if strings.HasPrefix(l, "limit ") {
+				fmt.Sscan(l[6:], &limit)
+			}
+		}
+		for li, o := range obs {
+			for _, e := range o.Events {
+				if e.Kind != "N" {
+					continue
+				}
+				if e.QLen >= limit && e.ResStr != "canceled" && !contains(e.Called, sch.Exc) {
+					add(li, "", "mutation accepted beyond the queue limit (len %d, limit %d): %s", e.QLen, limit, e.ResStr)
+				}
+			}
+		}
 		for li, o := range obs {
 			if !o.IsOp || o.Crash != "" || li == 0 {
 				continue
@@ -757,8 +775,8 @@ func goParseRequire(sch *Schema, states []int) []int {
 	}
 }
 
-// blockedInScan returns the states dropped by the reverse scan.
-func blockedInScan(sch *Schema, tx txObs) map[int]bool {
+// scanSurvivors returns the states that survive the reverse scan.
+func scanSurvivors(sch *Schema, tx txObs) map[int]bool {
 	before := setOf(tx.TI.Before)
 	called := setOf(tx.TI.Called)
 	var toSet []int
@@ -788,15 +806,22 @@ func blockedInScan(sch *Schema, tx txObs) map[int]bool {
 			already[name] = true
 		}
 	}
-	return already
+	surv := map[int]bool{}
+	for _, x := range s1 {
+		if !already[x] {
+			surv[x] = true
+		}
+	}
+	return surv
 }
 
 // sigC02Readd: the offending pair (x Removes y, both active afterwards) is
-// explained by the known hole iff one of them was blocked in the reverse scan
-// and re-introduced by the second parseAdd.
+// explained by the known hole iff the remover x did not survive the reverse scan.
 func sigC02Readd(sch *Schema, tx txObs, x, y int) string {
-	bl := blockedInScan(sch, tx)
-	if bl[x] || bl[y] {
+	// x Removes y, both active. In the recorded hole the remover x is NOT a
+	// survivor of the reverse scan (it was blocked there and re-added by the
+	// second parseAdd); a surviving remover always puts y into toRemove.
+	if !scanSurvivors(sch, tx)[x] {
 		return "C02-readd-after-blocked-blocker"
 	}
 	return ""
